@@ -150,10 +150,24 @@ func verifC03(samples []verifKindSample) {
 	for _, k := range smp.keep {
 		required[k] = true
 	}
-	v := verifChoose("variant", 2*len(keys)+3)
+	v := verifChoose("variant", 3*len(keys)+3)
 	in := map[string]any{}
 	flipped := false
+	capitalised := false
 	switch {
+	case v >= 2*len(keys)+3:
+		// one member written with a capital first letter: another name, so an unknown field like any other
+		// (known finding: encoding/json matches field names case-insensitively, so the member is ALSO read as
+		// the known field and written back under both names)
+		k := keys[v-2*len(keys)-3]
+		for k2, m := range obj {
+			in[k2] = m
+		}
+		if k[0] >= 'a' && k[0] <= 'z' && !required[k] && k != "x-ext" && smp.name != "SchemaNulls" && smp.name != "ExampleNull" {
+			delete(in, k)
+			in[string([]byte{k[0] - 32})+k[1:]] = obj[k]
+			capitalised = true
+		}
 	case v == 2*len(keys)+2:
 		// a field the specification does not know (and that is not an x- extension) next to all the others
 		for k, m := range obj {
@@ -211,6 +225,13 @@ func verifC03(samples []verifKindSample) {
 		}
 		in = rest
 	}
+	if capitalised {
+		verifKnown("C03-capitalised-field-name-duplicated", true)
+		verifAssert(ok && reflect.DeepEqual(got, any(in)), "C03 "+smp.name+": a member whose name differs from a specified field by letter case is another field: it comes back once, as written")
+		verifKnown("C03-capitalised-field-name-duplicated", false)
+		verifReach("end")
+		return
+	}
 	if flipped {
 		verifAssert(ok && reflect.DeepEqual(verifDropDefaultFalse(got), verifDropDefaultFalse(any(in))), "C03 "+smp.name+": with every boolean negated the serialised JSON equals the input up to members that are false by default")
 	} else {
@@ -228,5 +249,5 @@ func verifC03(samples []verifKindSample) {
 	verifReach("end")
 }
 
-//verif:harness id=C03 tier=quick,thorough witness=end bounds="19 OpenAPI 3 object kinds (Schema x2, Parameter, Header, MediaType+Encoding, RequestBody, Response, Operation, PathItem, Components, SecurityScheme+OAuthFlows, Server+Variable, Info+Contact+License, Tag+ExternalDocs, Link, Example, Discriminator, XML, whole document) in normal form with every specified field and an x- extension; plus samples with mixed-case names and values (media types, header names, HTTP scheme Bearer, component names differing in case only, server URL, status classes); variants: all members, each member dropped, each member alone, every boolean negated; JSON reader/writer only (YAML and byte-level syntax are not applicable)"
+//verif:harness id=C03 tier=quick,thorough witness=end bounds="19 OpenAPI 3 object kinds (Schema x2, Parameter, Header, MediaType+Encoding, RequestBody, Response, Operation, PathItem, Components, SecurityScheme+OAuthFlows, Server+Variable, Info+Contact+License, Tag+ExternalDocs, Link, Example, Discriminator, XML, whole document) in normal form with every specified field and an x- extension; plus samples with mixed-case names and values (media types, header names, HTTP scheme Bearer, component names differing in case only, server URL, status classes); variants: all members, each member dropped, each member alone, every boolean negated, each member's name capitalised; JSON reader/writer only (YAML and byte-level syntax are not applicable)"
 func verifH_C03_openapi3() { verifC03(verifSamples) }
